@@ -48,9 +48,9 @@ PROP = "C38"
 
 NUM_COLS = ("c", "d", "a", "n")                 # float NaN, float integral, int64, nullable Int64
 ANY_COLS = ("c", "d", "a", "n", "b", "e", "t", "m")
-FEW_KEYS = ("a", "b", "e", "k", "n", "s:a%2", "s:d>0", "s:n%2", "s:col:b")
-MANY_KEYS = ("g", "c", "@index", "@indexobj", "s:c.round", "t")
-NA_KEYS = ("n", "c", "s:n%2", "s:c.round")
+FEW_KEYS = ("a", "b", "e", "k", "n", "s:a%2", "s:d>0", "s:col:b")
+MANY_KEYS = ("g", "c", "@index", "s:c.round", "t")
+NA_KEYS = ("n", "c", "s:c.round")
 
 F_NUM = ("sum", "mean", "prod", "var", "std", "median")
 F_ANY = ("min", "max", "count", "first", "last")
@@ -59,7 +59,7 @@ ORDER_DEP = ("first", "last", "idxmin", "idxmax", "shift", "ffill", "bfill")
 SPLIT_OUT = (None, 1, 2, 3, True)
 SHUFFLE = (None, "tasks", "disk")
 SORT = (None, True, False)
-SPLIT_EVERY = (None, 2, 3, False)
+SPLIT_EVERY = (None, None, 2, 3, 8)
 
 
 def _demean(x):
@@ -323,7 +323,7 @@ def cases(tier, seed):
         index = rng.choice(INDEX_KINDS)
         if any(t == "@index" for t in by) and index in ("range", "unsorted"):
             index = rng.choice(("dups", "dups", "sorted", "float", "strings", "datetime"))
-        if any(t == "@indexobj" for t in by) and rng.random() < 0.6:
+        if any(t == "@index" for t in by) and rng.random() < 0.5:
             index = "dups"
         op, allow, odep = _rand_op(rng, by)
         plain = odep and rng.random() < 0.55
@@ -436,6 +436,16 @@ def _opname(op):
     return k
 
 
+FAMILY = {"idxmin": "idxmin-idxmax", "idxmax": "idxmin-idxmax", "first": "first-last", "last": "first-last",
+          "ffill": "ffill-bfill", "bfill": "ffill-bfill", "cumsum": "cum", "cumprod": "cum", "cumcount": "cum",
+          "cov": "cov-corr", "corr": "cov-corr", "mean": "mean-var-std", "var": "mean-var-std", "std": "mean-var-std"}
+PLAIN_AGG = ("sum", "prod", "min", "max", "count", "size", "first", "last")
+
+
+def _family(name):
+    return FAMILY.get(name, name)
+
+
 def _keysorted(x):
     """keyed-multiset normal form: rows sorted by index levels, then by values (NaN last), stable."""
     import numpy as np
@@ -465,36 +475,348 @@ def _keysorted(x):
     return x.iloc[np.asarray(order)]
 
 
-def _compare(r, e, ordered, rtol):
+def _key_frame(idx, nkeys):
     import pandas as pd
 
-    from vf.gen import frames
+    if isinstance(idx, pd.MultiIndex):
+        f = idx.to_frame(index=False).iloc[:, :nkeys]
+    else:
+        f = pd.DataFrame({0: idx})
+    f.columns = range(f.shape[1])
+    for c in f.columns:
+        if isinstance(f[c].dtype, pd.CategoricalDtype):
+            f[c] = f[c].astype(object)
+    return f
 
-    if not ordered and isinstance(r, (pd.Series, pd.DataFrame)) and isinstance(e, (pd.Series, pd.DataFrame)):
-        if type(r) is type(e) and len(r) == len(e) and (r.ndim == 1 or r.shape[1] == e.shape[1]):
-            try:
-                r, e = _keysorted(r), _keysorted(e)
-            except Exception:  # noqa: BLE001  (cannot normalise: let the shared comparison decide)
-                return frames.compare(r, e, ordered=False, rtol=rtol)
-    return frames.compare(r, e, ordered=True, rtol=rtol)
+
+def _na_key_mask(x, nkeys):
+    return _key_frame(x.index, nkeys).isna().any(axis=1).to_numpy()
+
+
+def _key_tuples(x, nkeys):
+    import pandas as pd
+
+    f = _key_frame(x.index, nkeys)
+    return [tuple("<NA>" if pd.isna(v) else v for v in row) for row in f.itertuples(index=False, name=None)]
+
+
+def _row_na_keys(pdf, case):
+    """per input row: is any grouping key NA (pandas drops such rows from the groups when dropna is true)."""
+    import numpy as np
+    import pandas as pd
+
+    ks = _keys(pdf, case)
+    ks = ks if isinstance(ks, list) else [ks]
+    m = np.zeros(len(pdf), dtype=bool)
+    for k in ks:
+        if isinstance(k, pd.Series):
+            m |= k.isna().to_numpy()
+        elif k == pdf.index.name and k is not None and k not in pdf.columns:
+            m |= pd.isna(pdf.index).to_numpy() if hasattr(pd.isna(pdf.index), "to_numpy") else np.asarray(pd.isna(pdf.index))
+        else:
+            m |= pdf[k].isna().to_numpy()
+    return m
+
+
+def _partition_key_sets(ddf, case):
+    """group keys present in each input partition (computed with pandas on the materialised partitions)."""
+    import dask
+
+    parts = dask.compute(*[ddf.partitions[i] for i in range(ddf.npartitions)], scheduler="sync")
+    out = []
+    nk = len(case["by"])
+    for p in parts:
+        if not len(p):
+            out.append(set())
+            continue
+        ks = _keys(p, case)
+        s = p.groupby(ks, dropna=False, observed=True, sort=False).size()
+        out.append(set(_key_tuples(s, nk)))
+    return out
+
+
+def _diff_keys(r, e, nkeys):
+    """keys of the rows that differ between two key-sorted results with identical index."""
+    import numpy as np
+    import pandas as pd
+
+    a = r.to_frame() if isinstance(r, pd.Series) else r
+    b = e.to_frame() if isinstance(e, pd.Series) else e
+    bad = np.zeros(len(a), dtype=bool)
+    for i in range(a.shape[1]):
+        x, y = a.iloc[:, i], b.iloc[:, i]
+        xn, yn = x.isna().to_numpy(), y.isna().to_numpy()
+        try:
+            xv = x.to_numpy(dtype="float64", na_value=np.nan)
+            yv = y.to_numpy(dtype="float64", na_value=np.nan)
+            same = np.isclose(xv, yv, rtol=1e-7, atol=1e-8, equal_nan=True)
+        except (TypeError, ValueError):
+            same = np.asarray(x.astype(object).to_numpy() == y.astype(object).to_numpy())
+            same = same | (xn & yn)
+        bad |= ~same
+    keys = _key_tuples(r, nkeys)
+    return {k for k, b_ in zip(keys, bad) if b_}
 
 
 def _features(case, pdf, ddf, plan):
     by, gkw, akw, op = case["by"], case["gkw"], case["akw"], case["op"]
+    sel = op.get("sel")
+    selcols = list(pdf.columns) if sel is None else (sel if isinstance(sel, list) else [sel])
     f = {}
     f["shuffle-plan"] = any("Shuffle" in n for n in plan)
     f["split_out>1"] = akw.get("split_out") not in (None, 1)
     f["shuffle_method"] = akw.get("shuffle_method")
+    f["split_every"] = akw.get("split_every")
     f["sort"] = gkw.get("sort")
-    f["dropna=False"] = gkw.get("dropna") is False
-    f["observed=False"] = gkw.get("observed") is False
+    f["dropna"] = gkw.get("dropna")
+    f["observed"] = gkw.get("observed")
     f["cat-key"] = "k" in by
     f["multi-key"] = len(by) > 1
     f["series-key"] = any(t.startswith("s:") for t in by)
+    f["series-key-name-collides"] = any(t.startswith("s:") and _base_col(t) in selcols for t in by)
     f["index-key"] = any(t.startswith("@") for t in by)
+    f["na-keys"] = bool(_row_na_keys(pdf, case).any())
     f["npartitions"] = ddf.npartitions
     f["known-divisions"] = bool(ddf.known_divisions)
+    f["index-increasing-unique"] = bool(pdf.index.is_monotonic_increasing and pdf.index.is_unique)
+    f["index-unique"] = bool(pdf.index.is_unique)
+    f["values-have-NA"] = bool(pdf[[c for c in selcols if c in pdf.columns]].isna().any().any())
     return f
+
+
+class _Judge:
+    """staged comparison: every deviation that can be normalised away is reported with its own label and then
+    repaired, so that a second, different deviation in the same result is still seen."""
+
+    def __init__(self, case, ctx, name, feats, pdf, ddf, ordered, rtol, odep):
+        self.case, self.ctx, self.name, self.f = case, ctx, name, feats
+        self.pdf, self.ddf, self.ordered, self.rtol, self.odep = pdf, ddf, ordered, rtol, odep
+        self.fam = _family(name)
+        self.nkeys = len(case["by"])
+        self.got = self.exp = None
+
+    def report(self, pred, symptom, msg, fam=None):
+        label = "%s:%s:%s" % (fam or self.fam, pred, symptom)
+        self.ctx.violation(label, msg, features=self.f, by=self.case["by"], gkw=self.case["gkw"], akw=self.case["akw"],
+                           op=self.case["op"], got=self.got, expected=self.exp)
+
+    # ------------------------------------------------------------------
+    def run(self, r, e):
+        import pandas as pd
+
+        from vf.gen import frames
+
+        case, f, op = self.case, self.f, self.case["op"]
+        self.got, self.exp = _short(r), _short(e)
+        kind = op["kind"]
+        agg_like = kind in ("single", "agg", "value_counts")
+        # 1 -- object kind
+        if isinstance(e, pd.DataFrame) != isinstance(r, pd.DataFrame) or isinstance(e, pd.Series) != isinstance(r, pd.Series):
+            pred = "other"
+            if kind == "agg" and "median" in _agg_funcs(op) and op["form"] == "s-str":
+                pred = "agg[median]&series-groupby&single-function"
+            self.report(pred, "kind", "got %s, expected %s" % (type(r).__name__, type(e).__name__))
+            return
+        if not isinstance(e, (pd.DataFrame, pd.Series)):
+            m = frames.compare(r, e, rtol=self.rtol)
+            if m:
+                self.report("other", m[0], m[1])
+            return
+        # 2 -- columns
+        if isinstance(e, pd.DataFrame) and list(r.columns) != list(e.columns):
+            same_set = len(r.columns) == len(e.columns) and set(map(repr, r.columns)) == set(map(repr, e.columns)) \
+                and r.columns.is_unique
+            if same_set:
+                pred = "other"
+                sel = op.get("sel")
+                if self.fam in ("mean-var-std", "cov-corr", "median") and isinstance(sel, list) \
+                        and [c for c in self.pdf.columns if c in sel] != sel:
+                    pred = "list-selection-not-in-frame-order"
+                self.report(pred, "columns-order", "columns %s vs expected %s" % (list(r.columns), list(e.columns)))
+                r = r[list(e.columns)]
+            else:
+                pred = "other"
+                if kind == "agg" and "median" in _agg_funcs(op) and op["form"] in ("s-list", "s-named"):
+                    pred = "agg[median]&series-groupby"
+                self.report(pred, "columns", "columns %s vs expected %s" % (list(r.columns), list(e.columns)))
+                if r.shape[1] != e.shape[1]:
+                    return
+                r = r.copy()
+                r.columns = e.columns
+        # 3 -- names
+        if isinstance(e, pd.Series) and not (r.name == e.name or (pd.isna(r.name) if not isinstance(r.name, tuple) else False)
+                                             and (pd.isna(e.name) if not isinstance(e.name, tuple) else False)):
+            self.report("other", "name", "Series name %r vs expected %r" % (r.name, e.name))
+            r = r.rename(e.name)
+        if list(r.index.names) != list(e.index.names):
+            self.report("other", "index-names", "index names %s vs expected %s" % (list(r.index.names), list(e.index.names)))
+            if r.index.nlevels != e.index.nlevels:
+                return
+            r = r.rename_axis(list(e.index.names)) if r.index.nlevels > 1 else r.rename_axis(e.index.names[0])
+        # 4 -- groups that exist on one side only for a nameable reason
+        if agg_like and r.index.nlevels >= min(self.nkeys, e.index.nlevels) and r.index.nlevels == e.index.nlevels:
+            rn, en = _na_key_mask(r, self.nkeys), _na_key_mask(e, self.nkeys)
+            if rn.any() and not en.any():
+                self.report("na-keys&dropna!=False", "extra-NA-group",
+                            "%d result rows carry an NA group key, pandas has none (dropna=%r)" % (rn.sum(), f["dropna"]))
+                r = r[~rn]
+            elif en.any() and not rn.any():
+                self.report("na-keys&dropna=False", "NA-group-missing",
+                            "pandas has %d rows with an NA group key, the result none" % en.sum())
+                e = e[~en]
+            if f["cat-key"] and f["observed"] is False and kind != "value_counts":
+                try:
+                    obs = self.pdf.groupby(_keys(self.pdf, case), observed=True, dropna=False, sort=False).size()
+                    obs = set(_key_tuples(obs, self.nkeys))
+                    ru = [k not in obs for k in _key_tuples(r, self.nkeys)]
+                    eu = [k not in obs for k in _key_tuples(e, self.nkeys)]
+                    if sum(ru) != sum(eu):
+                        how = "duplicated" if sum(ru) > sum(eu) else "missing"
+                        pred = "cat-key&observed=False" + ("&shuffle" if f["shuffle-plan"] else "")
+                        self.report(pred, "unobserved-groups-" + how,
+                                    "%d result rows for unobserved category combinations, pandas has %d" % (sum(ru), sum(eu)),
+                                    fam="nunique" if self.name == "nunique" else ("median" if self.name == "median" else "agg-any"))
+                        import numpy as np
+
+                        r, e = r[~np.asarray(ru)], e[~np.asarray(eu)]
+                except Exception:  # noqa: BLE001 (explanation only)
+                    pass
+        if not agg_like and kind != "cum" and len(r) != len(e):
+            nam = _row_na_keys(self.pdf, case)
+            if f["dropna"] is not False and nam.any() and len(r) == len(e) - nam.sum():
+                self.report("na-keys&dropna!=False", "rows-with-NA-key-missing",
+                            "%d rows vs expected %d: the %d rows whose key is NA are absent" % (len(r), len(e), nam.sum()),
+                            fam="transform-like")
+                e = e[~nam]
+        # 5 -- length
+        if len(r) != len(e):
+            self.report(self._pred_other(), "length", "%d rows vs expected %d" % (len(r), len(e)))
+            return
+        # 6 -- keyed multiset / ordered comparison
+        if not self.ordered:
+            try:
+                r, e = _keysorted(r), _keysorted(e)
+            except Exception:  # noqa: BLE001
+                pass
+        m = frames.compare(r, e, ordered=True, rtol=self.rtol)
+        if m is not None and m[0] == "dtype":
+            self.report(self._pred_dtype(r, e), "dtype", m[1])
+            m = frames.compare(r, e, ordered=True, rtol=self.rtol, check_dtype=False)
+        if m is None:
+            return
+        symptom = m[0]
+        if symptom in ("index", "values"):
+            mi = frames.compare(r.index, e.index, ordered=True)
+            symptom = "index" if mi is not None else "values"
+        if symptom == "index" and self.ordered:
+            # same rows in another order?
+            try:
+                m2 = frames.compare(_keysorted(r), _keysorted(e), ordered=True, rtol=self.rtol, check_dtype=False)
+            except Exception:  # noqa: BLE001
+                m2 = m
+            if m2 is None:
+                self.report(self._pred_other(), "row-order", m[1])
+                return
+        self.report(self._pred_values(r, e, symptom), symptom, m[1])
+
+    # ------------------------------------------------------------------
+    def _pred_other(self):
+        return "other"
+
+    def _pred_dtype(self, r, e):
+        return "other"
+
+    def _pred_values(self, r, e, symptom):
+        f, case, op = self.f, self.case, self.case["op"]
+        fam = self.fam
+        if symptom != "values":
+            if fam in ("ffill-bfill", "shift", "transform") and f["shuffle-plan"] and not f["index-unique"]:
+                return "after-shuffle&duplicate-index-labels"
+            return "other"
+        spans = None
+        if fam in ("idxmin-idxmax", "first-last") or (fam == "agg" and self.odep):
+            try:
+                sets = _partition_key_sets(self.ddf, case)
+                cnt = {}
+                for s in sets:
+                    for k in s:
+                        cnt[k] = cnt.get(k, 0) + 1
+                dk = _diff_keys(r, e, self.nkeys)
+                spans = bool(dk) and all(cnt.get(k, 0) >= 2 for k in dk)
+            except Exception:  # noqa: BLE001
+                spans = None
+        if fam == "idxmin-idxmax":
+            return "group-spans-partitions" if spans else "other"
+        if fam == "first-last" or (fam == "agg" and self.odep):
+            if spans and f["shuffle-plan"]:
+                return "after-shuffle:group-spans-partitions"
+            return "group-spans-partitions" if spans else "other"
+        if fam == "ffill-bfill":
+            return "after-shuffle" if f["shuffle-plan"] else "other"
+        if fam == "shift":
+            if f["shuffle-plan"] and not f["index-increasing-unique"]:
+                return "after-shuffle&index-not-strictly-increasing"
+            return "other"
+        if fam == "cov-corr":
+            if f["values-have-NA"]:
+                return "NA-in-values"
+            if self.name == "cov" and op.get("kw", {}).get("ddof", 1) != 1:
+                return "ddof!=1"
+            return "other"
+        return "other"
+
+
+def _short(x):
+    try:
+        return x.head(12).to_string()[:700]
+    except Exception:  # noqa: BLE001
+        return repr(x)[:300]
+
+
+def _exc_prefix(case, name, feats, exc):
+    """op family + verified input-feature predicate for an exception raised by dask."""
+    from vf.core.ctx import dask_frame
+
+    fam = _family(name)
+    fr = dask_frame(exc)
+    fn = fr[1] if fr else ""
+    msg = str(exc)
+    op = case["op"]
+    f = feats
+    pred = "other"
+    if fn == "_groupby_raise_unaligned" and f["series-key"] and fam == "cum":
+        pred = "series-key"
+    elif "already exists" in msg and f["series-key-name-collides"]:
+        fam, pred = "agg-any", "series-key-named-like-selected-column&shuffle"
+    elif fam == "median" and isinstance(exc, ZeroDivisionError) and f["split_every"] and f["split_every"] > f["npartitions"]:
+        pred = "split_every>npartitions"
+    elif fam == "agg" and "median" in _agg_funcs(op):
+        if isinstance(exc, KeyError) and "options" in msg and f["sort"] is True:
+            pred = "agg[median]&sort=True"
+        elif fn == "_non_agg_chunk" and f["index-key"]:
+            pred = "agg[median]&index-key"
+        else:
+            pred = "agg[median]&other"
+    elif fam == "idxmin-idxmax" and "all NA values" in msg:
+        pred = "group-all-NA-within-a-partition"
+    elif fam == "value_counts" and fn == "_value_counts_aggregate" and f["na-keys"] and f["dropna"] is False:
+        pred = "na-keys&dropna=False"
+    elif fam == "value_counts" and f["multi-key"] and f["shuffle-plan"] and isinstance(exc, KeyError):
+        pred = "multi-key&shuffle"
+    elif fam == "ffill-bfill" and f["na-keys"] and f["dropna"] is False and "NA is ambiguous" in msg:
+        pred = "na-keys&dropna=False"
+    elif fam in ("ffill-bfill", "transform") and f["na-keys"] and f["dropna"] is not False and "No objects to concatenate" in msg:
+        fam, pred = "transform-like", "na-keys&dropna!=False"
+    elif fam == "shift" and "duplicate labels" in msg and f["series-key"] and not f["index-unique"]:
+        pred = "series-key&duplicate-index-labels"
+    elif fam == "cov-corr":
+        if fn == "make_meta_object" and f["split_out>1"] and f["sort"] is not True:
+            pred = "split_out>1&sort!=True"
+        elif f["index-key"] and isinstance(exc, KeyError):
+            pred = "index-key"
+        elif "NA is ambiguous" in msg and f["values-have-NA"]:
+            pred = "nullable-NA-in-values"
+    return "%s:%s" % (fam, pred)
 
 
 def run_case(case, ctx):
@@ -538,54 +860,50 @@ def run_case(case, ctx):
         return
     except Exception as ex:  # noqa: BLE001
         feats = _features(case, pdf, ddf, plan)
-        ctx.exception(ex, prefix=_exc_prefix(case, name), case_features=feats)
+        ctx.exception(ex, prefix=_exc_prefix(case, name, feats, ex), case_features=feats, by=case["by"],
+                      gkw=case["gkw"], akw=case["akw"], op=op)
         return
     feats = _features(case, pdf, ddf, plan)
     shuffled = feats["shuffle-plan"]
     ordered = (op["kind"] == "cum") or (
-        op["kind"] in ("single", "agg", "value_counts") and case["gkw"].get("sort") is True
-        and case["akw"].get("split_out") in (None, 1))
-    if op["kind"] == "value_counts":
-        ordered = False   # within a group pandas orders by count with unspecified tie order
+        op["kind"] in ("single", "agg") and case["gkw"].get("sort") is True
+        and case["akw"].get("split_out") in (None, 1) and name != "median")
     ctx.count("compared")
     ctx.count("cmp_ordered" if ordered else "cmp_keyed_multiset")
     ctx.count("plan_shuffle" if shuffled else "plan_no_shuffle")
     if odep:
         ctx.count("order_dependent_after_shuffle" if shuffled else "order_dependent_main")
-    if any(t in NA_KEYS for t in case["by"]) or case.get("nakey") and "b" in {_base_col(t) for t in case["by"]}:
+    if feats["na-keys"]:
         ctx.count("na_key_cases")
     if "k" in case["by"]:
         ctx.count("categorical_key_cases")
+    if any(n == 0 for n in _part_lengths(case, len(pdf), ddf)):
+        ctx.count("empty_partition_cases")
     nexp = len(expected) if hasattr(expected, "__len__") else 1
     ctx.nontrivial = len(pdf) >= 2 and nexp >= 2 and ddf.npartitions >= 2
     ctx.sig = (case["by"], case["gkw"], op, case["akw"], case["fseed"], case["nrows"], case["part"])
     ctx.distinct("programs", (case["by"], sorted(case["gkw"].items()), op, sorted(case["akw"].items(), key=str)))
     ctx.distinct("plans", plan)
-    rtol = 1e-7 if name in ("var", "std", "cov", "corr", "agg", "transform", "mean", "prod", "sum", "cumprod", "cumsum") else 1e-9
-    m = _compare(result, expected, ordered, rtol)
-    if m is not None:
-        facet = ":after-shuffle" if (odep and shuffled) else ""
-        label = "%s%s:%s:%s" % (name, facet, _predicate(case, feats, m[0], result, expected), m[0])
-        ctx.violation(label, m[1], features=feats, by=case["by"], gkw=case["gkw"], akw=case["akw"], op=op,
-                      got=_short(result), expected=_short(expected))
+    rtol = 1e-9 if name in ("min", "max", "count", "size", "first", "last", "nunique", "idxmin", "idxmax", "cumcount",
+                            "shift", "ffill", "bfill", "value_counts") else 1e-7
+    nv = len(ctx.violations)
+    try:
+        _Judge(case, ctx, name, feats, pdf, ddf, ordered, rtol, odep).run(result, expected)
+    except Exception as ex:  # noqa: BLE001  (a comparison step that cannot be carried out is a mismatch of its own)
+        if len(ctx.violations) == nv:
+            ctx.violation("%s:other:uncomparable" % _family(name), "%s: %s" % (type(ex).__name__, ex), features=feats,
+                          got=_short(result), expected=_short(expected))
     ctx.sample = {"op": name, "by": case["by"], "gkw": case["gkw"], "akw": case["akw"], "rows": len(pdf),
                   "npartitions": ddf.npartitions, "groups": nexp, "ordered": ordered, "shuffle": shuffled}
 
 
-def _short(x):
-    try:
-        return x.head(12).to_string()[:700]
-    except Exception:  # noqa: BLE001
-        return repr(x)[:300]
-
-
-def _exc_prefix(case, name):
-    return name
-
-
-def _predicate(case, feats, kind, result, expected):
-    """input-feature predicate of the label; refined during calibration so that one mechanism = one label."""
-    return "any"
+def _part_lengths(case, n, ddf):
+    d = case["part"]
+    if d.get("how") in ("slices", "delayed"):
+        cuts = sorted(min(max(0, c), n) for c in d.get("cuts", []))
+        b = [0] + cuts + [n]
+        return [y - x for x, y in zip(b[:-1], b[1:])]
+    return [1] * ddf.npartitions if n >= ddf.npartitions else [0]
 
 
 RULE = ("cases = (frame seed/rows/index kind, partitioning incl. empty partitions and unknown divisions, grouping keys "
